@@ -65,13 +65,15 @@ type Universe struct {
 	WellKnown bool `json:"wellknown,omitempty"`
 	// RootProj: project 0 lives at the root of the repository (its path is the repository's address)
 	RootProj bool `json:"rootproj,omitempty"`
+	// CaseTwins: every odd project lives in the directory of its predecessor spelled in upper case (p0, P0, p2, P2 ...)
+	CaseTwins bool `json:"casetwins,omitempty"`
 }
 
 func ProjDir(i int) string { return fmt.Sprintf("p%d", i) }
 
 // dirOf is the directory inside the repository of the project with the given path.
 func (u *Universe) dirOf(p string) string {
-	p = project.TrimPathVersion(p)
+	p, _ = SplitPathMajor(p)
 	if p == u.Addr() {
 		return ""
 	}
@@ -83,6 +85,10 @@ func (u *Universe) dirOf(p string) string {
 func (u *Universe) Dir(i int) string {
 	if u.RootProj && i == 0 {
 		return ""
+	}
+	if u.CaseTwins && i%2 == 1 {
+		// the directory of the project before it in other letter case: two projects whose paths differ in case only
+		return fmt.Sprintf("P%d", i-1)
 	}
 	return ProjDir(i)
 }
@@ -255,8 +261,16 @@ func (r *Repo) FetchRevision(ctx context.Context, projectPath string, rev vcs.Re
 			return errors.New("no project at the root of this repository")
 		}
 		projectPath = ""
-	} else if _, err := fmt.Sscanf(projectPath, "p%d", &proj); err != nil {
-		return errors.New("no such project")
+	} else {
+		proj = -1
+		for k := 0; k < r.U.NProj; k++ {
+			if r.U.Dir(k) == projectPath && !(r.U.RootProj && k == 0) {
+				proj = k
+			}
+		}
+		if proj < 0 {
+			return errors.New("no such project")
+		}
 	}
 	cfg, ok := r.configAt(proj, rv.idx)
 	if !ok {
@@ -474,9 +488,9 @@ var versionPool = map[string][]string{
 	"v2": {"v2.0.0", "v2.0.1", "v2.1.0", "v2.1.0-beta", "v2.3.4"},
 	"v3": {"v3.0.0-pre", "v3.0.0", "v3.1.0"},
 	// majors whose decimal spelling sorts before "2", between "2" and "9", and has three digits
-	"v10": {"v10.0.0", "v10.1.0", "v10.1.1-rc.1"},
-	"v12": {"v12.0.0", "v12.3.4"},
-	"v20": {"v20.0.0", "v20.1.0"},
+	"v10":  {"v10.0.0", "v10.1.0", "v10.1.1-rc.1"},
+	"v12":  {"v12.0.0", "v12.3.4"},
+	"v20":  {"v20.0.0", "v20.1.0"},
 	"v100": {"v100.0.0", "v100.0.1"},
 }
 
@@ -485,7 +499,8 @@ var projNames = []string{"lib", "core", "", "lib", "util", "p"}
 // GenUniverse draws a universe.
 func GenUniverse(t *rapid.T) Universe {
 	np := rapid.IntRange(2, 7).Draw(t, "nproj")
-	u := Universe{NProj: np, WellKnown: rapid.IntRange(0, 2).Draw(t, "wellknown") == 2, RootProj: rapid.IntRange(0, 3).Draw(t, "rootproj") == 3}
+	u := Universe{NProj: np, WellKnown: rapid.IntRange(0, 2).Draw(t, "wellknown") == 2, RootProj: rapid.IntRange(0, 3).Draw(t, "rootproj") == 3,
+		CaseTwins: rapid.IntRange(0, 4).Draw(t, "casetwins") == 4}
 	used := map[string]bool{}
 	ntags := rapid.IntRange(np, 3*np+2).Draw(t, "ntags")
 	for i := 0; i < ntags; i++ {
